@@ -14,6 +14,27 @@ FD_ARGS = {"open": (1,), "close": (1,), "write": (1,), "pwrite": (1,), "allocate
            "link": (1, 3), "symlink": (2,), "pathtimes": (1,), "read": (1,), "pread": (1,), "stat": (1,)}
 
 
+LINKS = {}          # link path -> target path (filled from the harness' tree description)
+
+
+def is_sym(path):
+    """the path goes through (or names) a symbolic link of the tree: such cases are oracle-only (symlinks are not modelled)"""
+    return isinstance(path, str) and any(path == l or path.startswith(l + "/") for l in LINKS)
+
+
+def canon(path):
+    """resolve the (single-level, relative) links of the tree in a path"""
+    for _ in range(4):
+        for l, t in LINKS.items():
+            if path == l or path.startswith(l + "/"):
+                comps = []
+                for x in (os.path.dirname(l) + "/" + t + path[len(l):]).split("/"):
+                    if x == "..": comps = comps[:-1]
+                    elif x not in ("", "."): comps.append(x)
+                path = "/".join(comps)
+    return path
+
+
 def coq_errno(name):
     if name == "0": return "0"
     if name in ERRNOS: return name
@@ -41,6 +62,8 @@ def z(v):
 def coq_tree(tree):
     ents = []
     for e in tree:
+        if e.get("link"):
+            continue            # symbolic links are not part of the model tree
         if e["dir"]:
             ents.append("(%s, NDir %d %d)" % (coq_path(e["path"]), e["mtime"], e["perm"]))
         else:
@@ -94,7 +117,10 @@ def fd32(v):
 def replay(tree, c):
     """Replays the descriptor table from the implementation's own observations (no model): yields for every
     op the path behind its (first) descriptor, and checks read payloads against the tree's content."""
-    content = {e["path"]: (None if e["dir"] else bytes(e["data"])) for e in tree}
+    content = {e["path"]: (None if e["dir"] else bytes(e["data"])) for e in tree if not e.get("link")}
+    follow = c["kind"] != "map"      # fstest.MapFS (Go 1.23) serves a link entry as a file holding the target string
+    if not follow:
+        content.update({e["path"]: e["link"].encode() for e in tree if e.get("link")})
     fdmap, off = {3: ""}, {}
     info, why = [], None
     for j, (op, ob) in enumerate(zip(c["ops"], c["obs"])):
@@ -104,7 +130,7 @@ def replay(tree, c):
         if k == "open" and ob["e"] == "0":
             basep = fdmap.get(fd)
             comps = [x for x in ((basep or "") + "/" + op[6]).split("/") if x not in ("", ".")]
-            fdmap[ob["p"][0]] = "/".join(comps)
+            fdmap[ob["p"][0]] = canon("/".join(comps)) if follow else "/".join(comps)
             off[ob["p"][0]] = 0
         elif k == "close" and ob["e"] == "0":
             fdmap.pop(fd, None)
@@ -136,7 +162,7 @@ def seq_oracle(tree, c):
     if why:
         return why, "read"
     if c["name"] == "reads":
-        isfile = {e["path"] for e in tree if not e["dir"]}
+        isfile = {e["path"] for e in tree if not e["dir"] and not e.get("link")}
         for j, (op, ob) in enumerate(zip(c["ops"], c["obs"])):
             if op[0] == "open" and op[6] in isfile and ob["e"] != "0":
                 return "op %d: opening %r for reading failed with %s" % (j, op[6], ob["e"]), "open"
@@ -153,7 +179,8 @@ def run(tier, seed):
                    "harness/c17 (Go: proxy guest, recursive snapshot after every operation) and checks/c17.py (case conversion, oracle)"]
     ck.assumptions += ["an fs.FS implementation's Open does not modify the file system (os.DirFS and fstest.MapFS are the instances run)",
                        "Linux: open(2) without O_CREAT/O_TRUNC, and write(2)/ftruncate(2) on an O_RDONLY descriptor, change nothing (access times are not part of the snapshot)",
-                       "paths are clean relative paths (path normalisation and escaping belong to C16); symbolic links inside the mount are not modelled"]
+                       "paths are clean relative paths (path normalisation and escaping belong to C16)",
+                       "symbolic links (to a file, to a directory, dangling) are present in every mounted tree and exercised with the full path_open product, every other mutating call and random sequences, but ORACLE-ONLY: the recursive snapshot (incl. link targets and newly appearing names) must not change; errnos on paths through links are not compared with the Coq model, whose host layer does not follow links"]
     proofs_ok = ck.proofs()
     if tier == "quick":
         args = ["-n", "25", "-len", "30", "-direct", "250"]
@@ -169,6 +196,8 @@ def run(tier, seed):
         ck.violation("harness-crash", {"kind": "crash"}, {"rc": rc, "tail": out[-3000:]}, no_input=False)
         return ck.finish()
     tree = recs[0]["tree"]
+    LINKS.clear()
+    LINKS.update({e["path"]: e["link"] for e in tree if e.get("link")})
     prods = [r for r in recs if r["t"] == "product"]
     dprods = [r for r in recs if r["t"] == "dproduct"]
     seqs = [r for r in recs if r["t"] == "seq"]
@@ -190,9 +219,11 @@ def run(tier, seed):
     # ---- 1. exhaustive products: model table vs run-length encoded observations, inside Coq ----
     v = header
     for i, p in enumerate(prods):
+        if is_sym(p["path"]): continue
         rle = "[" + "; ".join("(%s, %d)" % (coq_errno(x["e"]), x["n"]) for x in p["rle"]) + "]"
         v += "Definition P%d := Eval vm_compute in product_mismatches %s t0 %s %s.\nPrint P%d.\n" % (i, KIND[p["kind"]], coq_path(p["path"]), rle, i)
     for i, p in enumerate(dprods):
+        if is_sym(p["path"]): continue
         rle = "[" + "; ".join("(%d, %d)" % (x[0], x[1]) for x in p["rle"]) + "]"
         v += "Definition D%d := Eval vm_compute in dproduct_mismatches %s t0 %s %s.\nPrint D%d.\n" % (i, KIND[p["kind"]], coq_path(p["path"]), rle, i)
     rc, o = coq_eval("c17_products", v)
@@ -213,7 +244,9 @@ def run(tier, seed):
                 report("tree-mutated", {"kind": "tree-mutated", "mount": p["kind"], "op": what},
                        {"path": p["path"], "product_index": m["op"], "diff": m["diff"], "all": p["mut"][:8],
                         "order": "rights{0,2,64,66} x sums[1,8,2,4] x sums[1,16,8,4,2] x dirflags{0,1}" if name == "P" else "mode{0..3} + sums[16,4096,32,2048,1024,512,256,128,64,8,4]"})
-            if model_ok:
+            if is_sym(p["path"]):
+                dist["oracle_only_symlink_cases"] = dist.get("oracle_only_symlink_cases", 0) + p["count"]
+            elif model_ok:
                 idxs = parse_zlist(o, "%s%d" % (name, i))
                 if idxs is None:
                     ck.violation("model-eval", {"kind": "model-eval"}, {"out": o[-2000:]}, no_input=True)
@@ -224,10 +257,16 @@ def run(tier, seed):
                            no_input=not p["mut"])
 
     # ---- 2. sequences ----
-    coq_cases, back = [], []
+    coq_cases, back, coq_of = [], [], {}
     for ci, c in enumerate(seqs):
         dist["engine"][c["engine"]] = dist["engine"].get(c["engine"], 0) + 1
         dist["mount"][c["kind"]] = dist["mount"].get(c["kind"], 0) + len(c["ops"])
+        if c["name"].startswith("sym"):
+            dist["oracle_only_symlink_cases"] = dist.get("oracle_only_symlink_cases", 0) + len(c["ops"])
+            for op, ob in zip(c["ops"], c["obs"]):
+                dist["seq_ops"][op[0]] = dist["seq_ops"].get(op[0], 0) + 1
+                dist["errnos"][ob["e"][:12]] = dist["errnos"].get(ob["e"][:12], 0) + 1
+            continue
         info, _ = replay(tree, c)
         isdir = {e["path"] for e in tree if e["dir"]}
         ops, obs, idx = [], [], []
@@ -239,6 +278,7 @@ def run(tier, seed):
             if op[0] == "allocate" and info[j] in isdir:
                 continue    # st.Size of a directory is host specific (4096 on ext4, 0 in MapFS): not compared
             ops.append(coq_op(op)); obs.append(coq_obs(ob)); idx.append(j)
+        coq_of[len(coq_cases)] = ci
         coq_cases.append("(%s, t0, [%s], [%s])" % (KIND[c["kind"]], ";\n ".join(ops), "; ".join(obs)))
         back.append(idx)
     mism = {}
@@ -252,8 +292,8 @@ def run(tier, seed):
             ck.violation("model-eval", {"kind": "model-eval"}, {"rc": rc, "out": o[-2000:]}, no_input=True)
             break
         for i in range(0, len(lst), 2):
-            ci = s + lst[i]
-            mism[ci] = back[ci][lst[i + 1]] if 0 <= lst[i + 1] < len(back[ci]) else -1
+            k = s + lst[i]
+            mism[coq_of[k]] = back[k][lst[i + 1]] if 0 <= lst[i + 1] < len(back[k]) else -1
     for ci, c in enumerate(seqs):
         why, opname = seq_oracle(tree, c)
         j = mism.get(ci)
@@ -296,8 +336,11 @@ def run(tier, seed):
 
     dm = {}
     SH = 400
-    for s in range(0, len(directs), SH):
-        shard = directs[s:s + SH]
+    sym_directs = [d for d in directs if any(is_sym(a) for a in d["op"][1:])]
+    mod_directs = [d for d in directs if not any(is_sym(a) for a in d["op"][1:])]
+    dist["oracle_only_symlink_cases"] = dist.get("oracle_only_symlink_cases", 0) + len(sym_directs)
+    for s in range(0, len(mod_directs), SH):
+        shard = mod_directs[s:s + SH]
         v = header + "Definition cases : list dcase := [\n" + ";\n".join(
             "(%s, t0, %s, (%d, %d))" % (KIND[d["kind"]], coq_dop(d["op"]), d["e1"], d["e2"]) for d in shard) + "].\n" \
             "Definition M := Eval vm_compute in dmismatches 0 cases.\nPrint M.\n"
@@ -308,7 +351,7 @@ def run(tier, seed):
             break
         for i in range(0, len(lst), 2):
             dm[s + lst[i]] = lst[i + 1]
-    for di, d in enumerate(directs):
+    for di, d in enumerate(mod_directs + sym_directs):
         opn = d["op"][0] if d["op"][0] != "dopen" else "dopen+" + d["op"][3]
         dist["direct_ops"][opn] = dist["direct_ops"].get(opn, 0) + 1
         dist["mount"][d["kind"]] = dist["mount"].get(d["kind"], 0) + 1
